@@ -20,11 +20,11 @@ def pick(rnd, i):
     return case, make, ""
 
 
-CHECK = ComponentCheck("C15", pick, tiers={"quick": (64, 400)})
+CHECK = ComponentCheck("C15", pick, tiers={"quick": (64, 400)}, embedded=(("WideFifo",), ("wide_measurer", "fifo_measurer")))
 shards, run_shard = CHECK.shards, CHECK.run_shard
-RULE = ("histories = hostile random read(count)/peek/write(count[,max_count])/clear sequences over all read_width x write_width in 1..4, "
+RULE = ("[plus a second workload: WideFifo instances embedded in the FIFO latency measurers, watched passively (vf/passive.py) against the same reference model: readiness, results and state registers every cycle, conditions embedded:*] histories = hostile random read(count)/peek/write(count[,max_count])/clear sequences over all read_width x write_width in 1..4, "
         "depth a multiple of max(rw,ww) up to 16, both write_max_count settings, with stimulus modes full-width reads, exact-fit writes, "
         "max-width writes; non-trivial distinct case = (config, tag set among read+write / clamped read / exact-fit write / clear+write, level)")
 ASSUMPTIONS = ["array slots beyond the returned count are unspecified and not compared", "count <= max_count respected by the stimulus (asserted by the component itself)"]
-MINIMA = {"quick": {"cycles": 8000, "calls:read": 1500, "calls:write": 1000, "distinct": 40, "cond:result:read": 1500},
+MINIMA = {"quick": {"embedded_WideFifo_cycles": 2000, "cycles": 8000, "calls:read": 1500, "calls:write": 1000, "distinct": 40, "cond:result:read": 1500},
           "thorough": {"cycles": 500000, "distinct": 200}}
